@@ -462,13 +462,23 @@ def member_lookup(ctx, o):
             if val.startswith("None"):
                 n_none += 1
                 pat = r"^Iterator::position\(mut\(<impl \[T\]>::iter\(arg1\.%d\)\),\|x\| <(alpha_g_[\w:]+) as std::cmp::PartialEq>::eq\(x,arg2\)\) is None$" % fi
+                pat_prim = r"^Iterator::position\(mut\(<impl \[T\]>::iter\(arg1\.%d\)\),\|x\| x Eq arg2\) is None$" % fi
                 ms = [re.match(pat, s_) for s_ in atoms]
                 ms = [m for m in ms if m]
-                if not ms:
+                prim = any(re.match(pat_prim, s_) for s_ in atoms)
+                if not ms and not prim:
                     return False, "%s can return None although the key is in field %d" % (short(inner), fi)
-                eqb = prog.bodies.get("<%s as std::cmp::PartialEq>::eq" % ms[0].group(1))
-                if eqb is None or not eqb.j["span"].get("exp"):
-                    return False, "PartialEq of %s is not derived" % ms[0].group(1)
+                if ms:
+                    eqb = prog.bodies.get("<%s as std::cmp::PartialEq>::eq" % ms[0].group(1))
+                    if eqb is None or not eqb.j["span"].get("exp"):
+                        return False, "PartialEq of %s is not derived" % ms[0].group(1)
+                else:
+                    # `x == c` on a primitive: the element type must be an integer/bool/char (reflexive equality; not f32/f64)
+                    ety = prog.bodies[inner].locals[2]["ty"] if prog.bodies[inner].argc >= 2 else {}
+                    while ety.get("k") == "ref":
+                        ety = ety["t"]
+                    if ety.get("k") not in ("int", "bool", "char"):
+                        return False, "equality of a non-integer primitive key may not be reflexive"
             elif not val.startswith("Some"):
                 return False, "%s returns something other than Some/None literals" % short(inner)
         sb = prog.bodies[inner]
